@@ -7,6 +7,8 @@ import (
 	"strings"
 
 	"github.com/valyala/bytebufferpool"
+
+	"github.com/hujm2023/go-sms-protocol/verifhook"
 )
 
 type Writer struct {
@@ -16,6 +18,12 @@ type Writer struct {
 }
 
 func NewPacketWriter(totalLen ...int) *Writer {
+	if verifhook.Enabled {
+		b := bytebufferpool.Get()
+		verifhook.Acquire("packet.Writer", b)
+		verifhook.Yield("packet.Writer.get")
+		return &Writer{buf: b}
+	}
 	return &Writer{buf: bytebufferpool.Get()}
 }
 
@@ -179,6 +187,9 @@ func (p2 *Writer) Error() error {
 }
 
 func (p2 *Writer) Release() {
+	verifhook.Yield("packet.Writer.put")
+	verifhook.Poison(p2.buf.B[:cap(p2.buf.B)])
+	verifhook.Release("packet.Writer", p2.buf)
 	bytebufferpool.Put(p2.buf)
 	p2.written = 0
 	p2.opError = nil
